@@ -1,6 +1,7 @@
 import WK.Spec.C31
 import WK.Model.C31
 import WK.Proofs.C31_judge
+import WK.Proofs.C31_retry
 import WK.Gen.C31
 /-
   C31 — Online delivery preserves per-channel order and recipient coverage.
@@ -676,5 +677,61 @@ theorem c31_src_shard_key_and_retry :
     WK.Gen.C31.shardKeyFields = ["plan.Event.ChannelID", "plan.Event.ChannelType"] ∧
     WK.Gen.C31.routesAssigns = [("result.Retryable", ["err==nil"])] ∧
     WK.Gen.C31.pushConsumers = ["r.routeOwnerPush"] := by decide
+
+/-! ## completeness direction: runs of the model are accepted -/
+
+/-- Completeness of the judge for the retry model: the owner-push events ANY run of
+    `retryLoop` produces (any oracle, transport errors included) are accepted by the judge —
+    no `push-to-unknown-route`, `retry-after-terminal`, `retry-exceeds-max` or
+    `channel-order` — provided the routes were announced by presence, are distinct sessions,
+    were attempted `k` times so far and the budget `k + fuel` fits RetryMaxAttempts. -/
+theorem c31_retry_run_accepted (orc : Oracle) (m owner : Nat) (i : MsgInfo) : ∀ (fuel k : Nat) (routes : List Route) (j : J),
+    lookup j.msgs m = some i →
+    (∀ r ∈ routes, j.expected.contains (m, r.uid, r.node, r.sess) = true) →
+    (∀ r ∈ routes, (lookup j.att (rkey m r)).getD (0, false) = (k, false)) →
+    k + fuel ≤ j.retryMax →
+    (∀ n s, (lookup j.last (n, s, i.ch)).getD 0 ≤ i.seq) →
+    (routes.map (rkey m)).Nodup →
+    ∃ j', runJ j (retryEvents orc m owner fuel k routes) = .ok j'
+  | 0, _, _, j, _, _, _, _, _, _ => ⟨j, rfl⟩
+  | fuel+1, k, routes, j, hm, he, ha, hk, hl, hnd => by
+    unfold retryEvents
+    cases horc : orc k routes with
+    | none =>
+      obtain ⟨j1, h1, e1, e2, e3, e4, _, _, e7⟩ := attemptAll_ok (i := i) (m := m) (k := k) false routes [] j hm he ha (by omega) hl hnd
+      obtain ⟨j2, h2⟩ := c31_retry_run_accepted orc m owner i fuel (k+1) routes j1 (e1 ▸ hm)
+        (fun r hr => e2 ▸ he r hr) (e7 rfl) (by rw [e3]; omega) e4 hnd
+      exact ⟨j2, by simp only [runJ, stepJ, h1]; exact h2⟩
+    | some ds =>
+      obtain ⟨j1, h1, e1, e2, e3, e4, _, e6, _⟩ := attemptAll_ok (i := i) (m := m) (k := k) true routes ds j hm he ha (by omega) hl hnd
+      by_cases hre : retryableOf routes ds = []
+      · exact ⟨j1, by simp only [hre, if_true, runJ, stepJ, h1]⟩
+      · have hsub := retryableOf_sublist routes ds
+        obtain ⟨j2, h2⟩ := c31_retry_run_accepted orc m owner i fuel (k+1) (retryableOf routes ds) j1 (e1 ▸ hm)
+          (fun r hr => e2 ▸ he r (hsub.subset hr)) e6 (by rw [e3]; omega) e4 ((hsub.map _).nodup hnd)
+        exact ⟨j2, by simp only [hre, if_false, runJ, stepJ, h1]; exact h2⟩
+
+def retryExampleJ : J :=
+  { world := [(1, [(1, 11)]), (2, [(1, 21)])]
+    retryMax := 3
+    msgs := [(1001, { ch := 1, seq := 1, mode := 1, frm := 0, snode := 0, ssess := 0 })]
+    expected := [(1001, 1, 1, 11), (1001, 2, 1, 21)] }
+
+example : (runJ retryExampleJ
+    (retryEvents (fun k _ => if k = 0 then some [.accepted, .retryable] else if k = 1 then none else some [.dropped]) 1001 1 3 0
+      [⟨1, 1, 11⟩, ⟨2, 1, 21⟩])).toBool = true := by decide
+
+/-- Channel order in message sequences: if a channel's plans are admitted in sequence order
+    (`seqOf` monotone along the serials of that channel — its single writer), then in every
+    reachable state the sequence numbers of the push attempts made for that channel never go
+    back.  Every (session, channel) sub-trace is a sub-list of this one, so the judge's
+    `channel-order` rule can never fire on a run of the LTS. -/
+theorem c31_channel_order_seq {shardOf : Nat → Nat} {st : QSt} (h : QReach shardOf st) (c : Nat) (seqOf : Nat → Nat)
+    (hmono : ∀ p q, p ≤ q → seqOf p ≤ seqOf q) :
+    ((chanSerials c st.out).map seqOf).Pairwise (· ≤ ·) ∧
+    ∀ sub, List.Sublist sub ((chanSerials c st.out).map seqOf) → sub.Pairwise (· ≤ ·) := by
+  have h1 : ((chanSerials c st.out).map seqOf).Pairwise (· ≤ ·) :=
+    List.Pairwise.map seqOf (fun a b hab => hmono a b hab) (c31_channel_order h c)
+  exact ⟨h1, fun sub hs => h1.sublist hs⟩
 
 end WK.C31
